@@ -256,6 +256,16 @@ pub fn gen_c04(run: &mut Run, seed: u64, thorough: bool) {
             i.execute(&hc, &id, &ha, &good, "first-delivery");
             i.execute(&hc, &id, &ha, &good, "already-executed");
             i.g.q_msg(&m);
+            // … not even after the very same (still validly signed) approval is relayed again
+            let m2 = i.approve(&hc, &id, &ha, &its, &good, "re-approve-executed");
+            i.execute(&hc, &id, &ha, &good, "re-approved-after-execution");
+            i.g.q_msg(&m2);
+            // … nor after an approval of OTHER content for the same id
+            let other2 = transfer_payload(&env, b"ethereum", &tid, b"0xsrc", &dest, 9, None);
+            let m3 = i.approve(&hc, &id, &ha, &its, &other2, "re-approve-executed-other-content");
+            i.execute(&hc, &id, &ha, &other2, "re-approved-other-content-after-execution");
+            i.g.q_msg(&m3);
+            i.sweep(&holders);
             // source chain not the hub (consistently approved that way)
             let id = i.fresh_id();
             let m = i.approve(b"ethereum", &id, &ha, &its, &good, "approve");
